@@ -35,7 +35,7 @@ mixed-case scheme/authority, hashes, object bytes 0..64 KiB incl. empty, 0..200 
 write_xml and read back through parse / parse_limited and through harness implementations of ProcessSnapshot / \
 ProcessDelta (object data read in chunks of 1..n bytes), reader buffer sizes 1 byte..whole file; oracle = field-by-field \
 comparison with the generated plain data plus library ==; non-trivial = >=2 elements and a URI containing & or '. \
-big: fixed files of 1.3-24 MB whose elements are each below the limits (they must parse). bytes: arbitrary bytes, \
+hash-text: the text form of a hash (64 hex digits exactly; one character replaced, multi-octet characters inside a 64-octet string at even and odd offsets, wrong lengths, arbitrary strings) through FromStr and through serde (borrowed, escaped, value, reader): accepted iff 64 ASCII hex digits, value / Display / Serialize / TryFrom agree, no panic. big: fixed files of 1.3-24 MB whose elements are each below the limits (they must parse). bytes: arbitrary bytes, \
 hand-written templates, written files and /repo/test-data/rrdp files under 0..6 XML-aware mutations (dictionary token \
 insertion at syntax positions, splice, duplicate, truncate, bit flip, nesting, global token replacement) into every \
 parser; oracle = no panic, and every Ok value v satisfies parse(write(v)) == v; non-trivial = at least one parser \
@@ -169,6 +169,20 @@ pub struct RoundTrip {
     pub read_chunk: u8,
     /// delta limit for parse_limited
     pub limit: u8,
+}
+
+/// The delta limit handed to `parse_limited`: small values as they are, the
+/// top of the range stands for "effectively unlimited" arguments a caller
+/// may pass (the work and memory spent must not depend on them).
+pub fn real_limit(l: u8) -> usize {
+    match l {
+        0..=215 => l as usize,
+        216..=223 => 65_536,
+        224..=231 => 1 << 24,
+        232..=239 => u32::MAX as usize,
+        240..=247 => usize::MAX / 2,
+        _ => usize::MAX,
+    }
 }
 
 //------------ URI strategies ----------------------------------------------------
@@ -520,7 +534,8 @@ fn run_roundtrip(c: &RoundTrip, obs: &mut Obs) -> CheckResult {
             }
             ensure!(parsed == value, "parsed notification != written value (library ==)");
             // parse_limited: documented behaviour on both sides of the limit
-            let limit = c.limit as usize;
+            let limit = real_limit(c.limit);
+            obs.label_if(limit > 1 << 30, "huge-delta-limit");
             let limited = with_reader(&xml, c.bufsize, |r| NotificationFile::parse_limited(r, limit))
                 .map_err(|e| Fail::new(format!("parse_limited({}) failed on a written notification: {}", limit, e)))?;
             if n.deltas.len() > limit {
@@ -852,6 +867,102 @@ fn run_chain(c: &Chain, obs: &mut Obs) -> CheckResult {
 
 //------------ property ---------------------------------------------------------------------
 
+//------------ sub-check: hash-text -----------------------------------------------------
+
+/// The text form of an RRDP hash (the `hash` attributes of the files, also
+/// reachable through `FromStr` and serde): 64 hexadecimal digits and nothing
+/// else; anything else is an error, not a panic.
+#[derive(Clone, Debug, Serialize, Deserialize)]
+pub struct HashText {
+    pub text: String,
+}
+
+fn hash_text_strategy(_: Tier) -> BoxedStrategy<HashText> {
+    let hex = prop::collection::vec(prop::sample::select("0123456789abcdefABCDEF".chars().collect::<Vec<_>>()), 64..=64)
+        .prop_map(|v| v.into_iter().collect::<String>());
+    let odd = prop::sample::select(vec!['g', 'G', '+', '-', ' ', 'x', '\u{e9}', '\u{20ac}', '\u{1F600}', '\u{0}', '\u{ff10}', '\u{0660}', '"', '\\']);
+    prop_oneof![
+        4 => hex.clone(),
+        // one character replaced (length in octets changes for multi-octet characters)
+        3 => (hex.clone(), 0usize..64, odd.clone()).prop_map(|(h, at, ch)| {
+            let mut v: Vec<char> = h.chars().collect();
+            v[at] = ch;
+            v.into_iter().collect()
+        }),
+        // exactly 64 octets with multi-octet characters inside, at even and odd offsets
+        3 => (hex.clone(), 0usize..62, prop::sample::select(vec!['\u{e9}', '\u{20ac}', '\u{1F600}', '\u{ff10}']), 1usize..4).prop_map(|(h, at, ch, n)| {
+            let mut out = String::new();
+            let mut chars = h.chars();
+            for _ in 0..at {
+                out.push(chars.next().unwrap());
+            }
+            for _ in 0..n {
+                out.push(ch);
+            }
+            for c in chars {
+                if out.len() >= 64 {
+                    break;
+                }
+                out.push(c);
+            }
+            while out.len() > 64 {
+                out.pop();
+            }
+            while out.len() < 64 {
+                out.push('0');
+            }
+            out
+        }),
+        // wrong lengths
+        2 => (hex.clone(), prop::sample::select(vec![0usize, 1, 31, 32, 62, 63, 65, 66, 128])).prop_map(|(h, n)| h.chars().cycle().take(n).collect()),
+        1 => ".{0,80}",
+    ]
+    .prop_map(|text| HashText { text })
+    .boxed()
+}
+
+fn run_hash_text(c: &HashText, obs: &mut Obs) -> CheckResult {
+    use std::str::FromStr;
+    let t = c.text.as_str();
+    let valid = t.len() == 64 && t.bytes().all(|b| b.is_ascii_hexdigit());
+    obs.label(if valid { "hash-valid" } else { "hash-invalid" });
+    obs.label_if(!t.is_ascii() && t.len() == 64, "hash-64-octets-non-ascii");
+    obs.nontrivial_if(!t.is_ascii() || valid);
+    let parsed = no_panic("rrdp::Hash::from_str", || rpki::rrdp::Hash::from_str(t))?;
+    ensure_sig!(parsed.is_ok() == valid, "c09:hash-text", "Hash::from_str({:?}) ok={}, 64 hex digits: {}", t, parsed.is_ok(), valid);
+    let js = serde_json::to_string(t).map_err(|e| Fail::new(e.to_string()))?;
+    // every way serde may hand the string over: borrowed, owned (escapes), value, reader
+    let escaped = format!("\"{}\"", t.chars().map(|ch| format!("\\u{:04x}", ch as u32)).collect::<String>());
+    let des: Vec<(&str, Result<rpki::rrdp::Hash, String>)> = vec![
+        ("from_str", no_panic("Hash deserialize", || serde_json::from_str::<rpki::rrdp::Hash>(&js))?.map_err(|e| e.to_string())),
+        ("from_value", no_panic("Hash deserialize", || serde_json::from_value::<rpki::rrdp::Hash>(serde_json::Value::String(t.to_string())))?.map_err(|e| e.to_string())),
+        ("from_reader", no_panic("Hash deserialize", || serde_json::from_reader::<_, rpki::rrdp::Hash>(js.as_bytes()))?.map_err(|e| e.to_string())),
+    ];
+    for (how, d) in &des {
+        ensure_sig!(d.is_ok() == valid, "c09:hash-text", "Hash deserialized ({}) from {}: {:?}, 64 hex digits: {}", how, js, d, valid);
+    }
+    if t.chars().all(|ch| (ch as u32) < 0x10000) {
+        let d = no_panic("Hash deserialize", || serde_json::from_str::<rpki::rrdp::Hash>(&escaped))?;
+        ensure_sig!(d.is_ok() == valid, "c09:hash-text", "Hash deserialized from the escaped JSON string {}: ok={}, 64 hex digits: {}", escaped, d.is_ok(), valid);
+    }
+    if let Ok(h) = parsed {
+        let mut want = [0u8; 32];
+        for (i, w) in want.iter_mut().enumerate() {
+            *w = u8::from_str_radix(&t[2 * i..2 * i + 2], 16).map_err(|e| Fail::new(e.to_string()))?;
+        }
+        ensure_sig!(h.as_slice() == want && <[u8; 32]>::from(h) == want && rpki::rrdp::Hash::from(want) == h, "c09:hash-text", "Hash::from_str({:?}) = {}", t, h);
+        ensure_sig!(h.to_string() == t.to_ascii_lowercase(), "c09:hash-text", "Display of Hash::from_str({:?}) is {}", t, h);
+        ensure_sig!(rpki::rrdp::Hash::from_str(&h.to_string()).ok() == Some(h), "c09:hash-text", "Display form of {} does not parse back", h);
+        let ser = serde_json::to_string(&h).map_err(|e| Fail::new(e.to_string()))?;
+        ensure_sig!(ser == format!("\"{}\"", h), "c09:hash-text", "Hash serialises as {}, Display is {}", ser, h);
+        for (how, d) in des {
+            ensure_sig!(d.as_ref().ok() == Some(&h), "c09:hash-text", "Hash deserialized ({}) differs: {:?} vs {}", how, d, h);
+        }
+        ensure_sig!(rpki::rrdp::Hash::try_from(&want[..]).ok() == Some(h) && rpki::rrdp::Hash::try_from(&want[..31]).is_err(), "c09:hash-text", "TryFrom<&[u8]>");
+    }
+    Ok(())
+}
+
 pub fn property() -> Property {
     Property {
         id: "C09",
@@ -882,6 +993,14 @@ pub fn property() -> Property {
             bytes_check::sub(),
             streams::header_sub(),
             streams::file_sub(),
+            PropSub {
+                name: "hash-text",
+                strategy: hash_text_strategy,
+                cases: |t| t.pick(200_000, 3_000_000),
+                run: run_hash_text,
+                floors: &[("hash-valid", 0.2), ("hash-invalid", 0.3), ("hash-64-octets-non-ascii", 0.1)],
+            }
+            .boxed(),
             PropSub {
                 name: "deltas",
                 strategy: chain_strategy,
